@@ -1,8 +1,336 @@
+import Corro.Model.Ivm
 import Driver.Util
-/-! Driver stub for C11: not built yet. -/
+/-! Line-protocol driver for C11: the model database, the change lists of transactions, the
+candidate buffers of every subscription and `Corro.Ivm.step`. -/
 namespace Driver.C11
-abbrev State := Unit
-def init : State := ()
-def step (st : State) (_toks : List String) : Option (State × String) := some (st, "bad-op")
+open Corro.Ivm
+
+/-! ### schema of the correspondence: t(id; a,b) u(k1,k2; x) k(id) w(id; y) -/
+
+structure TDef where
+  name : String
+  id : Nat
+  nk : Nat
+  cols : List String
+  ty : List Char
+deriving Inhabited
+
+def tables : List TDef := [
+  ⟨"t", 0, 1, ["id", "a", "b"], ['i', 't', 'i']⟩,
+  ⟨"u", 1, 2, ["k1", "k2", "x"], ['i', 't', 't']⟩,
+  ⟨"k", 2, 1, ["id"], ['i']⟩,
+  ⟨"w", 3, 1, ["id", "y"], ['t', 'i']⟩]
+
+def tdef? (n : String) : Option TDef := tables.find? (·.name = n)
+def tdefById (i : Nat) : TDef := (tables.find? (·.id = i)).getD default
+
+/-! ### values -/
+
+def hexVal (c : Char) : Option Nat :=
+  if '0' ≤ c ∧ c ≤ '9' then some (c.toNat - '0'.toNat)
+  else if 'a' ≤ c ∧ c ≤ 'f' then some (c.toNat - 'a'.toNat + 10)
+  else none
+
+def parseHex : List Char → Option (List Nat)
+  | [] => some []
+  | [_] => none
+  | a :: b :: rest => do
+    let x ← hexVal a; let y ← hexVal b; let r ← parseHex rest
+    pure ((x * 16 + y) :: r)
+
+def okText (b : List Nat) : Bool := b.all (fun c => (97 ≤ c ∧ c ≤ 122) ∨ (48 ≤ c ∧ c ≤ 57))
+
+/-- value tokens of the harness: `n`, `i<decimal>`, `t<hex of [a-z0-9]*>` -/
+def parseVal (s : String) : Option Val :=
+  match s.toList with
+  | ['n'] => some .null
+  | 'i' :: rest => (String.ofList rest).toInt?.map Val.int
+  | 't' :: rest => (parseHex rest).bind fun b => if okText b then some (.text b) else none
+  | _ => none
+
+def hexDigit (n : Nat) : Char := if n < 10 then Char.ofNat (48 + n) else Char.ofNat (87 + n)
+def showHex (b : List Nat) : String := String.ofList (b.flatMap fun x => [hexDigit (x / 16), hexDigit (x % 16)])
+
+def showVal : Val → String
+  | .null => "n"
+  | .int i => s!"i{i}"
+  | .text b => "t" ++ showHex b
+  | .blob b => "b" ++ showHex b
+
+def valOk (v : Val) (ty : Char) (key : Bool) : Bool :=
+  match v with
+  | .null => !key
+  | .int _ => ty = 'i'
+  | .text _ => ty = 't'
+  | .blob _ => false
+
+/-! ### statements -/
+
+inductive Stmt where
+  | ins (t : TDef) (k : Key) (assigns : List (Nat × Val))
+  | upd (t : TDef) (k : Key) (assigns : List (Nat × Val))
+  | del (t : TDef) (k : Key)
+  | mov (t : TDef) (k k' : Key)
+
+def parseKey (t : TDef) (s : String) : Option Key := do
+  let vs ← (s.splitOn "+").mapM parseVal
+  if vs.length = t.nk ∧ (vs.zip t.ty).all (fun (v, ty) => valOk v ty true) then some vs else none
+
+def parseAssigns (t : TDef) (s : String) : Option (List (Nat × Val)) :=
+  if s = "-" ∨ s = "" then some [] else
+  (s.splitOn ",").foldlM (fun acc kv =>
+    match kv.splitOn "=" with
+    | [c, v] => do
+      let ci ← t.cols.idxOf? c
+      let x ← parseVal v
+      if ci < t.nk ∨ !(valOk x (t.ty.getD ci 'i') false) ∨ acc.any (·.1 = ci) then none else some (acc ++ [(ci, x)])
+    | _ => none) []
+
+def parseStmt (s : String) : Option Stmt :=
+  match s.splitOn ":" with
+  | ["ins", tn, k] => do let t ← tdef? tn; let k ← parseKey t k; pure (.ins t k [])
+  | ["ins", tn, k, a] => do let t ← tdef? tn; let k ← parseKey t k; let a ← parseAssigns t a; pure (.ins t k a)
+  | ["upd", tn, k, a] => do
+    let t ← tdef? tn; let k ← parseKey t k; let a ← parseAssigns t a
+    if a.isEmpty then none else pure (.upd t k a)
+  | ["del", tn, k] => do let t ← tdef? tn; let k ← parseKey t k; pure (.del t k)
+  | ["mov", tn, k, k'] => do let t ← tdef? tn; let k ← parseKey t k; let k' ← parseKey t k'; pure (.mov t k k')
+  | _ => none
+
+def parseTx (s : String) : Option (List Stmt) := (s.splitOn ";").mapM parseStmt
+
+/-! ### query specs -/
+
+abbrev Ctx := List TDef
+
+def eat (p : String) (cs : List Char) : Option (List Char) :=
+  if p.toList.isPrefixOf cs then some (cs.drop p.length) else none
+
+def takeNat (cs : List Char) : Option (Nat × List Char) :=
+  let ds := cs.takeWhile Char.isDigit
+  if ds.isEmpty then none else (String.ofList ds).toNat?.map (·, cs.drop ds.length)
+
+partial def pExpr (ctx : Ctx) (cs : List Char) : Option (Expr × List Char) :=
+  let bin (name : String) (mk : Expr → Expr → Expr) : Option (Expr × List Char) := do
+    let r ← eat name cs
+    let (a, r) ← pExpr ctx r
+    let r ← eat "," r
+    let (b, r) ← pExpr ctx r
+    let r ← eat ")" r
+    pure (mk a b, r)
+  (bin "cat(" .cat) <|> (bin "add(" .add) <|>
+  (do
+    let r ← eat "c" cs
+    let (p, r) ← takeNat r
+    let r ← eat "." r
+    let (c, r) ← takeNat r
+    let t ← ctx[p]?
+    if c < t.cols.length then pure (.col p c, r) else none) <|>
+  (do
+    let r ← eat "v" cs
+    let tok := r.takeWhile (fun ch => ch.isAlphanum || ch = '-')
+    let v ← parseVal (String.ofList tok)
+    pure (.const v, r.drop tok.length))
+
+partial def pPred (ctx : Ctx) (cs : List Char) : Option (Pred × List Char) :=
+  let cmp (name : String) (op : CmpOp) : Option (Pred × List Char) := do
+    let r ← eat name cs
+    let (a, r) ← pExpr ctx r
+    let r ← eat "," r
+    let (b, r) ← pExpr ctx r
+    let r ← eat ")" r
+    pure (.cmp op a b, r)
+  let un (name : String) (mk : Expr → Pred) : Option (Pred × List Char) := do
+    let r ← eat name cs
+    let (a, r) ← pExpr ctx r
+    let r ← eat ")" r
+    pure (mk a, r)
+  let bin (name : String) (mk : Pred → Pred → Pred) : Option (Pred × List Char) := do
+    let r ← eat name cs
+    let (a, r) ← pPred ctx r
+    let r ← eat "," r
+    let (b, r) ← pPred ctx r
+    let r ← eat ")" r
+    pure (mk a b, r)
+  (cmp "eq(" .eq) <|> (cmp "ne(" .ne) <|> (cmp "lt(" .lt) <|> (cmp "le(" .le) <|> (cmp "gt(" .gt) <|> (cmp "ge(" .ge)
+  <|> (un "nul(" .isNull) <|> (un "nn(" .notNull) <|> (bin "and(" .and) <|> (bin "or(" .or)
+  <|> ((eat "T" cs).map fun r => (.tt, r))
+
+def full {α} (r : Option (α × List Char)) : Option α :=
+  match r with
+  | some (a, []) => some a
+  | _ => none
+
+structure QSpec where
+  q : Query
+  ctx : Ctx
+
+def parseQuery (spec : String) : Option QSpec :=
+  match spec.splitOn "|" with
+  | [fr, wh, pr] => do
+    let froms := fr.splitOn ";"
+    let base ← tdef? (froms.headD "")
+    let (ctx, joins) ← (froms.drop 1).foldlM (fun (acc : Ctx × List Join) j =>
+      match j.splitOn ":" with
+      | [kd, tn, on] => do
+        let kind ← if kd = "I" then some JoinKind.inner else if kd = "L" then some JoinKind.left else none
+        let t ← tdef? tn
+        if acc.1.any (·.name = t.name) then none else
+        let ctx := acc.1 ++ [t]
+        let p ← full (pPred ctx on.toList)
+        pure (ctx, acc.2 ++ [⟨kind, ⟨t.id, t.nk⟩, p⟩])
+      | _ => none) ([base], [])
+    if ctx.length > 3 then none else
+    let w ← full (pPred ctx wh.toList)
+    let proj ← (pr.splitOn ";").mapM (fun e => full (pExpr ctx e.toList))
+    pure ⟨⟨⟨base.id, base.nk⟩, joins, w, proj⟩, ctx⟩
+  | _ => none
+
+/-! ### the model world -/
+
+structure SubSt where
+  sid : String
+  q : Query
+  st : State
+  printed : Nat := 0
+  buf : List (Nat × List Key) := []
+
+structure World where
+  rows : List (Nat × List Row) := []     -- table number ↦ rows
+  seen : List (Nat × Key) := []          -- keys that ever existed (their next insert carries a sentinel)
+  subs : List SubSt := []
+
+def World.tbl (w : World) (t : Nat) : List Row := ((w.rows.find? (·.1 = t)).map (·.2)).getD []
+def World.db (w : World) : Db := fun t => w.tbl t
+def World.setTbl (w : World) (t : Nat) (rs : List Row) : World :=
+  { w with rows := (w.rows.filter (·.1 ≠ t)) ++ [(t, rs)] }
+
+abbrev Log := List Chg
+
+def logDropRow (l : Log) (t : Nat) (k : Key) : Log := l.filter (fun c => !(c.tbl = t ∧ c.key = k))
+def logCell (l : Log) (t : Nat) (k : Key) (c : Nat) : Log :=
+  (l.filter (fun x => !(x.tbl = t ∧ x.key = k ∧ x.cid = some c))) ++ [⟨t, k, some c⟩]
+
+def mkRow (t : TDef) (k : Key) (assigns : List (Nat × Val)) : Row :=
+  k ++ ((List.range t.cols.length).drop t.nk).map fun c =>
+    match assigns.find? (·.1 = c) with | some (_, v) => v | none => .null
+
+/-- one statement inside a transaction; `none` = constraint violation -/
+def applyStmt (w : World) (l : Log) : Stmt → Option (World × Log)
+  | .ins t k a =>
+    let rs := w.tbl t.id
+    if rs.any (fun r => keyOf t.nk r = k) then none else
+    let rc := if (w.seen.contains (t.id, k)) then RowChange.reinsert else RowChange.insertNew
+    let l := (logDropRow l t.id k) ++ changesOf t.id t.nk t.cols.length k rc
+    some ({ w.setTbl t.id (rs ++ [mkRow t k a]) with seen := if w.seen.contains (t.id, k) then w.seen else w.seen ++ [(t.id, k)] }, l)
+  | .upd t k a =>
+    let rs := w.tbl t.id
+    match rs.find? (fun r => keyOf t.nk r = k) with
+    | none => some (w, l)
+    | some r =>
+      let changed := a.filter (fun (c, v) => r.getD c .null ≠ v)
+      let r' := (List.range r.length).map fun c =>
+        match a.find? (·.1 = c) with | some (_, v) => v | none => r.getD c .null
+      let l := changed.foldl (fun l (c, _) => logCell l t.id k c) l
+      some (w.setTbl t.id (rs.map fun x => if keyOf t.nk x = k then r' else x), l)
+  | .del t k =>
+    let rs := w.tbl t.id
+    if rs.any (fun r => keyOf t.nk r = k) then
+      some (w.setTbl t.id (rs.filter fun r => keyOf t.nk r ≠ k), (logDropRow l t.id k) ++ [⟨t.id, k, none⟩])
+    else some (w, l)
+  | .mov t k k' =>
+    let rs := w.tbl t.id
+    match rs.find? (fun r => keyOf t.nk r = k) with
+    | none => some (w, l)
+    | some r =>
+      if k = k' then some (w, l) else
+      if rs.any (fun x => keyOf t.nk x = k') then none else
+      let l := (logDropRow l t.id k) ++ [⟨t.id, k, none⟩]
+      let l := (logDropRow l t.id k') ++ changesOf t.id t.nk t.cols.length k' .reinsert
+      let w' := w.setTbl t.id (rs.map fun x => if keyOf t.nk x = k then k' ++ r.drop t.nk else x)
+      some ({ w' with seen := if w'.seen.contains (t.id, k') then w'.seen else w'.seen ++ [(t.id, k')] }, l)
+
+def applyTx (w : World) (stmts : List Stmt) : Option (World × Log) :=
+  stmts.foldlM (fun (acc : World × Log) s => applyStmt acc.1 acc.2 s) (w, [])
+
+def showChg (c : Chg) : String :=
+  let t := tdefById c.tbl
+  let cid := match c.cid with | none => "-1" | some i => t.cols.getD i "?"
+  s!"{t.name}/{"+".intercalate (c.key.map showVal)}/{cid}"
+
+def showLog (l : Log) : String := showList (l.map showChg)
+
+/-- deliver one change list (one `match_changes` call) to every subscription: matched count per sub -/
+def deliver (w : World) (l : Log) : World × List Nat :=
+  let res := w.subs.map fun s =>
+    let cs := candidates s.q l
+    let buf := cs.foldl (fun b (c : Nat × List Key) => c.2.foldl (fun b k => addCand c.1 k b) b) s.buf
+    ({ s with buf := buf }, candCount cs)
+  ({ w with subs := res.map (·.1) }, res.map (·.2))
+
+def insertSorted (s : String) : List String → List String
+  | [] => [s]
+  | x :: xs => if s < x then s :: x :: xs else x :: insertSorted s xs
+def sortStrs (xs : List String) : List String := xs.foldl (fun acc s => insertSorted s acc) []
+
+def showSorted (xs : List String) : String := showList (sortStrs xs) ";"
+
+def showCells (cs : List Val) : String := ",".intercalate (cs.map showVal)
+
+def addLists : List Nat → List Nat → List Nat
+  | a :: as, b :: bs => (a + b) :: addLists as bs
+  | _, _ => []
+
+def step (w : World) (toks : List String) : Option (World × String) :=
+  match toks with
+  | ["sub", sid, spec, mode] =>
+    if mode ≠ "plain" ∧ mode ≠ "alias" then none else do
+    let qs ← parseQuery spec
+    if w.subs.any (·.sid = sid) then none else
+    let st := initial qs.q w.db
+    let out := s!"ok n={st.rows.length} " ++ showSorted (st.rows.map fun m => showCells m.cells)
+    pure ({ w with subs := w.subs ++ [⟨sid, qs.q, st, 0, []⟩] }, out)
+  | ["sync"] =>
+    let res := w.subs.map fun s =>
+      if candCount s.buf = 0 then ({ s with buf := [] }, 0)
+      else ({ s with st := Corro.Ivm.step s.q w.db s.st s.buf, buf := [] }, 1)
+    pure ({ w with subs := res.map (·.1) }, s!"ok b={showNats (res.map (·.2))}")
+  | ["rows", sid] => do
+    let s ← w.subs.find? (·.sid = sid)
+    let rows := s.st.rows.map fun m => "+".intercalate (m.pks.flatten.map showVal) ++ "|" ++ showCells m.cells
+    pure (w, s!"n={rows.length} " ++ showSorted rows)
+  | ["events", sid] => do
+    let s ← w.subs.find? (·.sid = sid)
+    let evs := s.st.events.drop s.printed
+    let w' := { w with subs := w.subs.map fun x => if x.sid = sid then { x with printed := s.st.events.length } else x }
+    match evs.head?, evs.getLast? with
+    | some a, some b =>
+      let list := evs.map fun e => (match e.kind with | .insert => "I" | .update => "U" | .delete => "D") ++ ":" ++ showCells e.cells
+      pure (w', s!"n={evs.length} ids={a.id}-{b.id} " ++ showSorted list)
+    | _, _ => pure (w', "n=0 ids=- -")
+  | [m, txs] =>
+    if m ≠ "w" ∧ m ≠ "r" ∧ m ≠ "rp" ∧ m ≠ "rb" then none else do
+    let parsed ← (txs.splitOn "|").mapM parseTx
+    if m ≠ "rb" ∧ parsed.length ≠ 1 then none else
+    let zero := w.subs.map fun _ => 0
+    let r := parsed.foldl (fun (acc : Option (World × List String × List Nat)) tx =>
+      match acc with
+      | none => none
+      | some (w, shown, m) =>
+        match applyTx w tx with
+        | none => none
+        | some (w', l) =>
+          if l.isEmpty then some (w', shown, m) else
+          let (w'', ms) := deliver w' l
+          some (w'', shown ++ [showLog l], addLists m ms)) (some (w, [], zero))
+    match r with
+    | none => pure (w, "err constraint")
+    | some (w', shown, ms) =>
+      pure (w', s!"ok ch={showList shown "|"} m={showNats ms}")
+  | _ => none
+
+abbrev State := World
+def init : State := {}
+
 end Driver.C11
 def main : IO Unit := Driver.runLoop Driver.C11.init Driver.C11.step
